@@ -93,4 +93,11 @@ var plans = map[string]*plan{
 		Real:   realB, Stub: stubB,
 		Assume: []string{"the must-retain set under-approximates the statement and is computed with git plumbing only (ls-tree, ls-files, raw diff-tree, rev-list), which is immune to the ambient diff configuration", "retention windows are only demanded at least 3 hours inside the boundary", "lfs.fetchexclude is not exercised", "simulated time is carried by commit dates relative to the run's start (40 days per scenario)"},
 	},
+	"C16": {
+		ID: "C16", Engine: "B", Level: "exploration",
+		Stages: []stage{{"C16.nofault", 80, 2000}, {"C16", 240, 8000}},
+		Rule:   "two users (two clones, identities taken by the lock server from the Authorization each sends) over lockable *.dat and non-lockable paths; 1-30 operations drawn from lock, unlock (path / --id / --force), locks / --verify / --cached / --local, edit of a held file, commit, checkout (file / branch switch), unauthorised edit+commit of a file locked by the other user, merge of the other side's pushed work, push; locksverify true/unset/false, lfs.setlockablereadonly on/off, list page size 0-3; lock-server faults keyed by request (create/unlock/list/verify 5xx and 403, failure on a later page, verify not implemented 404/501). Reference model per client: granted-via-this-client minus released-via-this-client, reset to the server's truth at each complete verifiable listing. Every scenario is non-trivial; distinct = distinct choice trace + outcomes.",
+		Real:   realB, Stub: []string{"lock API + LFS server: simulated, on loopback"},
+		Assume: []string{"a lock force-released by the other user is legitimately stale in the loser's view until its next verifiable listing", "non-fast-forward pushes are skipped (not this property's business)"},
+	},
 }
